@@ -25,6 +25,13 @@ func genC17(t *rapid.T) *Case {
 			}
 		}
 		spec.MD["tunnel-name"] = []string{fmt.Sprintf("t%d", i), "second"}
+		if rapid.IntRange(0, 2).Draw(t, fmt.Sprintf("t%d.icpt", i)) == 0 {
+			// a client stream interceptor on the network connection adds metadata (an auth token, say) to the opening call
+			spec.IcptMD = map[string][]string{"x-icpt-token": {fmt.Sprintf("tok-%d", i)}}
+			if rapid.Bool().Draw(t, fmt.Sprintf("t%d.icpt2", i)) {
+				spec.IcptMD["tunnel-name"] = []string{"from-interceptor"} // appended to a key the opener also set
+			}
+		}
 		c.Cfg.Tunnels = append(c.Cfg.Tunnels, spec)
 	}
 	n := rapid.IntRange(2, 6).Draw(t, "nrpcs")
@@ -72,6 +79,9 @@ func expectedTunnelMD(c *Case, ti int) map[string][]string {
 		}
 		if sp.Key != "" {
 			md["x-verif-key"] = []string{sp.Key}
+		}
+		for k, v := range sp.IcptMD {
+			md[k] = append(md[k], v...)
 		}
 	}
 	md["x-verif-tunnel"] = []string{fmt.Sprint(ti)}
